@@ -1567,7 +1567,7 @@ def hfp2_post(c, p):
 
 Q(name="e2_endpoint_first_initial", props=["C07", "C14", "C09"], func=r"endpoint\.rs:\d+:1: \d+:14>::handle_first_packet$",
   pure=[r"cids_exhausted$", r"PartialDecode::dst_cid$", r"PartialDecode::initial_header$", r"reserved_bits_valid$"],
-  allowed_panics=r"unwrap_failed|abort|handle_error|non-initial|attempt to", ignore_untranslatable=r"^cast kind Transmute",
+  allowed_panics=r"unwrap_failed|abort|handle_error|non-initial|attempt to|panic_fmt", ignore_untranslatable=r"^cast kind Transmute",
   functions=["Endpoint::handle_first_packet"], pre=lambda c: ule(c.inp("*_1.%d#discr" % c.field("endpoint.rs", "Endpoint", "server_config"), I64), bv(1)), post=hfp2_post,
   bounds="every datagram length, configuration and verdict of key derivation / header decoding / token validation (all opaque): without a server configuration the only reaction is a stateless reset sized by this datagram; an Initial in a datagram shorter than 1200 bytes causes no response and no state; the token is checked against this datagram's source address; NewConnection is returned iff a route for the Initial's DCID was installed for a fresh buffer slot; one error-string construction path (a pointer transmute inside the panic message) is outside",
   replay=("endpoint_first_initial_native", lambda m: [dict(len_=l, dcid_len=d) for d in (8, 4, 0) for l in (1199, 1200, 300, 64)]))
@@ -2866,3 +2866,86 @@ Q(name="e2_endpoint_connect_cid_leak", props=["C09"], func=r"endpoint\.rs[^>]*>:
   functions=["Endpoint::connect"], pre=lambda c: "true", post=cn_post,
   bounds="every way out of Endpoint::connect after a local CID was generated (new_cid routes it to the handle the connection WOULD get): the CID is either handed to add_connection as the new connection's CID or retired from the routing table - in particular when the TLS session cannot be started (invalid server name); otherwise it would route datagrams to whichever connection is given that handle next; callees opaque",
   replay=("endpoint_connect_failure_native", lambda m: [dict(x=0)]))
+
+
+# ------------------------------------------------------------------ C01: a lost STREAM frame is scheduled again without forgetting a FIN that is still owed
+def rtx_post(c, p):
+    st = p.p.state
+    if p.p.outcome != "return":
+        return "true"
+    gm = p.called(r"HashMap.*::get_mut$")
+    rt = p.called(r"SendBuffer::retransmit$")
+    pp = p.called(r"PendingStreamsQueue::push_pending$")
+    if len(gm) != 1:
+        return "false"
+    if not rt:
+        return "false" if pp else "true"              # stream gone: nothing to do
+    base = "**%s@Some.0@Some.0.0.0" % gm[0][2]        # &mut Option<Box<Send>> -> Send
+    fld = lambda n: base + ".%d" % c.field("connection/streams/send.rs", "Send", n)
+    fin_meta = "_2.%d" % c.field("frame.rs", "StreamMeta", "fin")
+    off_meta = "_2.%d" % c.field("frame.rs", "StreamMeta", "offsets")
+    if len(rt) != 1 or rt[0][1][0] != ("ref", fld("pending")) or rt[0][1][1] != ("agg", off_meta) or len(pp) > 1:
+        return "false"
+    fin0, fin1 = c.inp(fld("fin_pending"), BOOL), c.ex.read_key(st, fld("fin_pending"), BOOL).t
+    sb = lambda n: fld("pending") + ".%d" % c.field("connection/send_buffer.rs", "SendBuffer", n)
+    empties = p.called(r"RangeSet::is_empty$")
+    was_pending = or_(not_(eq(c.inp(sb("unsent"), BV64), c.inp(sb("offset"), BV64))), fin0, *[not_(c.ex.read_key(st, x[2], BOOL).t) for x in empties])
+    # the FIN stays owed if it was, and becomes owed if the lost frame carried it; the stream is queued for sending
+    return and_(eq(fin1, or_(fin0, c.inp(fin_meta, BOOL))), "true" if pp else was_pending)
+
+
+Q(name="e2_streams_retransmit", props=["C01"], func=r"streams/state\.rs:\d+:1: \d+:18>::retransmit$",
+  allowed_panics=r"xxx", inline=[r"Send::is_pending$", r"has_unsent_data$"],
+  functions=["StreamsState::retransmit", "Send::is_pending"], pre=lambda c: "true", post=rtx_post,
+  bounds="every lost STREAM frame (any offsets, with or without FIN) against every state of the stream: the frame's offsets are handed to SendBuffer::retransmit of THAT stream, `fin_pending` afterwards is `was pending before OR the lost frame carried the FIN` (a lost data frame never cancels a FIN that is still owed), and the stream is in the pending queue; a stream that is gone is ignored",
+  replay=("streams_retransmit_fin_native", lambda m: [dict(mode=0), dict(mode=1)]))
+
+
+# ------------------------------------------------------------------ C05: every chunk Send::write accepts is charged against the remaining budget (one loop iteration, slice)
+def sw_post(c, p):
+    st = p.p.state
+    if p.p.outcome != "stop" or "loop back-edge" not in str(p.p.detail):
+        return "true"
+    lim = c.fn.debug["limit"][-1]                       # the mutable usize copy of min(limit, budget)
+    res = c.fn.debug["result"][0]
+    bytes_f = c.field("connection/streams/send.rs", "Written", "bytes")
+    pc = p.called(r"BytesSource>::pop_chunk$")
+    wr = p.called(r"SendBuffer::write$")
+    if len(pc) != 1 or len(wr) != 1 or pc[0][1][1][0] != "val" or wr[0][1][1] != ("agg", pc[0][2] + ".0"):
+        return "false"
+    lim0, lim1 = c.inp(lim, BV64), c.ex.read_key(st, lim, BV64).t
+    b0, b1 = c.inp("%s.%d" % (res, bytes_f), BV64), c.ex.read_key(st, "%s.%d" % (res, bytes_f), BV64).t
+    # the source is offered exactly what is left, and what it handed over is no longer left
+    return and_(eq(pc[0][1][1][1].t, lim0), eq("(bvadd %s %s)" % (lim1, b1), "(bvadd %s %s)" % (lim0, b0)))
+
+
+Q(name="e2_send_write_loop_iteration", props=["C05"], func=r"streams/send\.rs:\d+:1: \d+:10>::write$",
+  src="connection/streams/send.rs", within=r"pub\(super\) fn write<S: BytesSource>\(", start_line=[r"let \(chunk, chunks_consumed\) = source\.pop_chunk\(limit\);", r"(?#after)^        loop \{$"],
+  allowed_panics=r".", check_stop=True, loop_is_stop=True,
+  functions=["Send::write (slice: one iteration of the chunk loop, generic over the BytesSource)"], pre=lambda c: "true", post=sw_post,
+  bounds="one iteration of the loop that moves chunks from the application into the send buffer, from an ARBITRARY state (any remaining budget, any amount already accepted): the source is asked for at most the remaining budget, the chunk it returns goes into the send buffer, and remaining budget + bytes accepted is the same before and after - by induction the total accepted never exceeds min(limit, max_data - offset) however many chunks a vectored write brings; BytesSource::pop_chunk opaque (it returns at most what it was asked for: its contract)",
+  replay=("send_write_chunks_native", lambda m: [dict(credit=10, chunk=6, n=3), dict(credit=12, chunk=6, n=3), dict(credit=5, chunk=6, n=1), dict(credit=0, chunk=6, n=1)]))
+
+
+# ------------------------------------------------------------------ C08: before negotiation, a configured idle timeout of 0 means "no idle timeout" (RFC 9000 18.2), not "time out at once"
+def cnw_post(c, p):
+    st = p.p.state
+    if p.p.outcome != "return":
+        return "true"
+    it = "_0.%d" % c.field("connection/mod.rs", "Connection", "idle_timeout")
+    K = "*_2.0.2.%d" % c.field("config/transport.rs", "TransportConfig", "max_idle_timeout")     # Arc<TransportConfig> -> ArcInner.data
+    got = eq(c.ex.read_key(st, it + "#discr", I64).t, bv(1))
+    ms = c.inp(K + "@Some.0.0", BV64)
+    want = and_(eq(c.inp(K + "#discr", I64), bv(1)), not_(eq(ms, bv(0))))
+    secs = c.ex.read_key(st, it + "@Some.0.0", BV64).t
+    nanos = c.ex.read_key(st, it + "@Some.0.1.0", ("bv", 32, False)).t
+    exact = and_(eq(secs, "(bvudiv %s (_ bv1000 64))" % ms), eq(nanos, "(bvmul ((_ extract 31 0) (bvurem %s (_ bv1000 64))) (_ bv1000000 32))" % ms))
+    return and_(eq(got, want), or_(not_(got), exact))
+
+
+Q(name="e2_connection_new_idle_timeout", props=["C08"], func=r"connection/mod\.rs:\d+:1: \d+:16>::new$",
+  allowed_panics=r".", max_paths=3000,
+  pre=lambda c: ule(c.inp("*_2.0.2.%d#discr" % c.field("config/transport.rs", "TransportConfig", "max_idle_timeout"), I64), bv(1)),
+  functions=["Connection::new (Duration::from_millis inlined)"], post=cnw_post,
+  bounds="every configuration value: the idle timeout a new connection starts with (in force until the peer's transport parameters arrive) is None when max_idle_timeout is unset OR zero, and exactly the configured number of milliseconds otherwise - a zero must never arm an immediate idle timer that the later negotiation (None) does not stop; every other field of the constructor is outside the claim",
+  replay=("conn_new_idle_timeout_native", lambda m: [dict(ms=0), dict(ms=1), dict(ms=30000)]))
